@@ -498,6 +498,15 @@ def run(ck):
         for lay in ("vec", "col"):
             cfgs.append(dict(cls=cls, layout=lay, dims=[3], y=[3.0, 5.0, 2.0], yhat=[2.5, 4.0, 3.5]))
         cfgs.append(dict(cls=cls, layout="mat", dims=[2, 2], y=[3.0, 5.0, 2.0, 7.0], yhat=[2.5, 4.0, 3.5, 9.0]))
+    # counts in the millions fitted to within a count or two (a solution against its own rounded values), small and large k
+    for kk in (0.05, 0.5, 5.0):
+        cfgs.append(dict(cls="NegBinom", layout="vec", dims=[4], y=[1203456.0, 2500001.0, 730000.0, 999999.0],
+                         yhat=[1203456.4, 2499998.7, 730000.35, 1000001.2], spread_form="float", spread=kk))
+    cfgs.append(dict(cls="Poisson", layout="vec", dims=[3], y=[1203456.0, 2500001.0, 730000.0], yhat=[1203456.4, 2499998.7, 730000.35]))
+    # precise Gamma data and a prediction off by a factor of three; weights that average to one
+    cfgs.append(dict(cls="Gamma", layout="vec", dims=[3], y=[3.0, 5.0, 2.0], yhat=[9.0, 1.7, 6.0], spread_form="float", spread=1000.0))
+    for cls in ("Square", "Normal"):
+        cfgs.append(dict(cls=cls, layout="vec", dims=[4], y=[3.0, 5.0, 2.0, 7.0], yhat=[2.5, 4.0, 3.5, 9.0], weights=[0.5, 1.5, 0.5, 1.5]))
 
     dist = {}
     shape_cases = {}
